@@ -84,6 +84,9 @@ def expectedReader : List (String × String) := [
 theorem reader_sources_as_transcribed : skeletonReader = expectedReader := rfl
 
 def expectedRepo : List (String × String) := [
+  ("asn1parser/ParseIssuerRDNSequence", "8f2bf8792cba77b1"),
+  ("asn1parser/ParseSubjectRDNSequence", "72777f1fd27bd47d"),
+  ("asn1parser/ParseRDNSequence", "ad1cb8dc8504f246"),
   ("crlrepository/NewCRLRepository", "1dcfe26e482fce93"),
   ("crlrepository/Repository.AddCRL", "eb2c4207a8192a4f"),
   ("crlrepository/Repository.storeCRLLocationsIfNotLoaded", "24163ff77f9f9a4b"),
@@ -130,7 +133,40 @@ def expectedRepo : List (String × String) := [
 
 theorem repo_sources_as_transcribed : skeletonRepo = expectedRepo := rfl
 
+def expectedOcsp : List (String × String) := [
+  ("asn1parser/ParseIssuerRDNSequence", "8f2bf8792cba77b1"),
+  ("asn1parser/ParseRDNSequence", "ad1cb8dc8504f246"),
+  ("ocsp/OCSPRevocationChecker.IsRevoked", "567cbca0eb970371"),
+  ("ocsp/issuerChains", "561b44831fd5c14b"),
+  ("ocsp/OCSPRevocationChecker.calculateEvictionTime", "b5946c13033b5650"),
+  ("ocsp/OCSPRevocationChecker.parseOcspResponse", "772832c5bda9d417"),
+  ("ocsp/isAuthorizedResponder", "e663a212c32711d1"),
+  ("ocsp/OCSPRevocationChecker.Provision", "ec13edbc63c5c180"),
+  ("ocsp/OCSPRevocationChecker.Cleanup", "5eb4d685762654d8"),
+  ("ocsp/OCSPRevocationChecker.executeHttpRequest", "d6820bea998e6946"),
+  ("ocsp/OCSPRevocationChecker.prepareHttpRequest", "1cafe0d6fe8b1bdf"),
+  ("ocsp/OCSPRevocationChecker.filterHTTPOCSPServers", "4b8bc63d83ea2fc1"),
+  ("ocsp/OCSPRevocationChecker.tryGetResponseFromCache", "75daa0937ef4a247")
+]
+
+theorem ocsp_sources_as_transcribed : skeletonOcsp = expectedOcsp := rfl
+
 def expectedCand : List (String × String) := [
+  ("asn1parser/ParseIssuerRDNSequence", "8f2bf8792cba77b1"),
+  ("asn1parser/ParseSubjectRDNSequence", "72777f1fd27bd47d"),
+  ("asn1parser/ParseRDNSequence", "ad1cb8dc8504f246"),
+  ("extensionsupport/GeneralName.GetGeneralNameType", "18d8f4e078279fba"),
+  ("extensionsupport/findLastRecursiveContextSpecificTagInOrder", "d6f60b1b1b571fed"),
+  ("extensionsupport/FindExtension", "d618276e5705060f"),
+  ("extensionsupport/CheckForCriticalUnhandledCRLExtensions", "b90f5189d3e71317"),
+  ("crlrepository/verifyCRLSignature", "29d5d673c65abfea"),
+  ("signatureverify/LookupHashAndVerifyStrategies", "2af9b4a2e1b6db3f"),
+  ("signatureverify/getHashAlgorithmFromOID", "ce39baf31cf2cda4"),
+  ("signatureverify/getVerifyStrategyFromOID", "e8d9af5c05d5f88d"),
+  ("signatureverify/RSASignatureVerifyStrategy.VerifySignature", "2068ba985278b887"),
+  ("signatureverify/RSASignatureVerifyStrategy.GetAlgorithmID", "cc3252c2bff9d2c5"),
+  ("signatureverify/ECDSASignatureVerifyStrategy.VerifySignature", "b7046d3f366d99db"),
+  ("signatureverify/ECDSASignatureVerifyStrategy.GetAlgorithmID", "f5b41d9801f0891c"),
   ("core/CertificateChains.AddCertificateChain", "5700cc3175366bca"),
   ("core/CertificateChain.AddCertificateChainEntry", "9d81fc8f6b38c73a"),
   ("core/NewCertificateChains", "f24bcd55d0e9f940"),
@@ -143,6 +179,28 @@ def expectedCand : List (String × String) := [
 ]
 
 theorem cand_sources_as_transcribed : skeletonCand = expectedCand := rfl
+
+def expectedLoader : List (String × String) := [
+  ("crlloader/URLLoader.LoadCRL", "8a22bff03ef51825"),
+  ("crlloader/URLLoader.DownloadFromUrlWithRetries", "8e70a0e3296cae2e"),
+  ("crlloader/URLLoader.GetCRLLocationIdentifier", "9eec9de02a6fa48e"),
+  ("crlloader/URLLoader.GetDescription", "384c8d931ef4573f"),
+  ("crlloader/URLLoader.downloadCRL", "dc8f27b31faef0e1"),
+  ("crlloader/URLLoader.normalizeUrl", "c82cb1a394b94107"),
+  ("crlloader/FileLoader.LoadCRL", "37f34628168f17bc"),
+  ("crlloader/FileLoader.copyToTargetFile", "a8e0486145ab1153"),
+  ("crlloader/FileLoader.GetCRLLocationIdentifier", "200b9fe42d4f7b01"),
+  ("crlloader/FileLoader.GetDescription", "0c713262fac761ef"),
+  ("crlloader/MultiSchemesCRLLoader.LoadCRL", "67a263ba957752c5"),
+  ("crlloader/MultiSchemesCRLLoader.GetCRLLocationIdentifier", "b72ddb0ce74d71ad"),
+  ("crlloader/MultiSchemesCRLLoader.GetDescription", "416d668b4f94ebda"),
+  ("crlloader/DefaultCRLLoaderFactory.CreatePreferredCrlLoader", "890de9092781c8d0"),
+  ("crlloader/calculateHashHexString", "3dee547bae05a8d9"),
+  ("utils/Retry", "38c3b097b44216ce"),
+  ("utils/CloseWithErrorHandling", "588d1f8739c24b60")
+]
+
+theorem loader_sources_as_transcribed : skeletonLoader = expectedLoader := rfl
 
 def expectedStore : List (String × String) := [
   ("crlstore/MapStore.StartUpdateCrl", "0c238c501d8563e1"),
@@ -204,22 +262,6 @@ def expectedStore : List (String × String) := [
 ]
 
 theorem store_sources_as_transcribed : skeletonStore = expectedStore := rfl
-
-def expectedOcsp : List (String × String) := [
-  ("ocsp/OCSPRevocationChecker.IsRevoked", "567cbca0eb970371"),
-  ("ocsp/issuerChains", "561b44831fd5c14b"),
-  ("ocsp/OCSPRevocationChecker.calculateEvictionTime", "b5946c13033b5650"),
-  ("ocsp/OCSPRevocationChecker.parseOcspResponse", "772832c5bda9d417"),
-  ("ocsp/isAuthorizedResponder", "e663a212c32711d1"),
-  ("ocsp/OCSPRevocationChecker.Provision", "ec13edbc63c5c180"),
-  ("ocsp/OCSPRevocationChecker.Cleanup", "5eb4d685762654d8"),
-  ("ocsp/OCSPRevocationChecker.executeHttpRequest", "d6820bea998e6946"),
-  ("ocsp/OCSPRevocationChecker.prepareHttpRequest", "1cafe0d6fe8b1bdf"),
-  ("ocsp/OCSPRevocationChecker.filterHTTPOCSPServers", "4b8bc63d83ea2fc1"),
-  ("ocsp/OCSPRevocationChecker.tryGetResponseFromCache", "75daa0937ef4a247")
-]
-
-theorem ocsp_sources_as_transcribed : skeletonOcsp = expectedOcsp := rfl
 
 def expectedMode : List (String × String) := [
   ("./init", "778fc18a6e184ac0"),
